@@ -866,11 +866,19 @@ func RegisterAPI(apiPkg string) {
 		}
 		return args[1]
 	}
+	O[p+"VerifPanicSite"] = func(fr *frame, args []value) value {
+		s := fr.i.panicSite
+		if k := strings.LastIndex(s, "/homescript/"); k >= 0 {
+			s = s[k+len("/homescript/"):]
+		}
+		return s
+	}
 	O[p+"VerifSteps"] = func(fr *frame, args []value) value { return fr.i.steps }
 	O[p+"VerifIsSymbolic"] = func(fr *frame, args []value) value { return true }
 	O[p+"VerifPanics"] = func(fr *frame, args []value) value {
 		i := fr.i
 		depth := i.depth
+		i.panicSite = ""
 		panicked, msg := false, ""
 		func() {
 			defer func() {
